@@ -836,8 +836,9 @@ def write_evidence(pid, tier, seed, mod, fams, obls, wall, nviol):
             'inconclusive': len(inc),
             'inconclusive_list': [{'obligation': o.oid, 'why': o.detail[:160]} for o in inc[:40]],
             'known_list': sorted(set(o.known['what'] for o in kn)),
-            'exhaustive': True,
-            'exhaustive_note': 'exhaustive over the enumerated shape space only; symbolic (solver-decided) over all other inputs within the bounds',
+            'exhaustive': not getattr(mod, 'SAMPLED', {}).get(tier),
+            'exhaustive_note': ('the shape space of this tier is SAMPLED: ' + getattr(mod, 'SAMPLED', {}).get(tier)) if getattr(mod, 'SAMPLED', {}).get(tier)
+                               else 'exhaustive over the enumerated shape space only; symbolic (solver-decided) over all other inputs within the bounds',
             'functions_encoded': fns[:400],
             'bounds': getattr(mod, 'BOUNDS', {}).get(tier, getattr(mod, 'BOUNDS', {})),
             'families': [{'name': f.name, 'harness': f.harness, 'units': f.units, 'stubs': f.stubs, 'defines': f.defines,
